@@ -299,6 +299,27 @@ def install(I):
     def it_combinations(I, args, kwargs):
         return [tuple(t) for t in itertools.combinations(B.iterate(I, args[0]), args[1])]
 
+    def heapq_merge(I, args, kwargs):
+        """heapq.merge(*iterables, key=None) (documented contract): a k-way merge - repeatedly the smallest current head,
+        the earliest iterable on ties; the inputs are NOT sorted by it (unsorted inputs give an unsorted result)"""
+        key = kwargs.get("key")
+        lists = [list(B.iterate(I, a)) for a in args]
+        kf = (lambda x: I.call(key, [x], {})) if key is not None else (lambda x: x)
+        out = []
+        while any(lists):
+            best = None
+            for j, l in enumerate(lists):
+                if not l:
+                    continue
+                if best is None:
+                    best = j
+                    continue
+                a, b = kf(l[0]), kf(lists[best][0])
+                if I.decide(B.compare(I, __import__("ast").Lt(), a, b)):
+                    best = j
+            out.append(lists[best].pop(0))
+        return out
+
     def fromkeys(I, args, kwargs):
         d = {}
         for k in B.iterate(I, args[0]):
@@ -360,6 +381,7 @@ def install(I):
         "itertools.chain.from_iterable": it_chain_from,
         "itertools.accumulate": it_accumulate,
         "itertools.combinations": it_combinations,
+        "heapq.merge": heapq_merge,
         "itertools.pairwise": lambda I, a, k: (lambda xs: list(zip(xs, xs[1:])))(B.iterate(I, a[0])),
         "collections.defaultdict": defaultdict,
         "collections.deque": deque,
